@@ -2272,7 +2272,7 @@ func (d *Data) DoRPC(req datastore.Request, reply *datastore.Response) error {
 			return fmt.Errorf("Need to include at least one file to add: %s", req)
 		}
 
-		offset, err := dvid.StringToPoint(offsetStr, ",")
+		offset, err := dvid.StringToPoint3d(offsetStr, ",")
 		if err != nil {
 			return fmt.Errorf("Illegal offset specification: %s: %v", offsetStr, err)
 		}
